@@ -40,7 +40,8 @@ def build_roots(kinds, tier='thorough'):
 
     for K in kinds:
         n = vdim(K)
-        for ty, ops in (('f32', FOPS), ('i32', IOPS)):
+        # integer division / remainder separately: over the integers `/` truncates, so a/s is not a*(1/s) (an identity for floats in exact arithmetic)
+        for ty, ops, tg in (('f32', FOPS, ''), ('i32', IOPS, ''), ('i32', FOPS[3:], 'i')):
             V = '%s<%s>' % (K, ty)
             for op, sy, tr in ops:
                 forms = {
@@ -50,11 +51,11 @@ def build_roots(kinds, tier='thorough'):
                     'rrs': ('a: %s, s: %s' % (V, ty), '&a %s &s' % sy),
                 }
                 for fk, (params, body) in forms.items():
-                    nm = 'r_%s_%s_%s' % (op, fk, K)
+                    nm = 'r_%s%s_%s_%s' % (op, tg, fk, K)
                     add(nm, 'pub fn %s(%s) -> %s { %s }' % (nm, params, V, body), kind='binop', op=op, ty=ty, K=K, scalar=fk.endswith('s'))
-                nm = 'r_%s_asg_%s' % (op, K)
+                nm = 'r_%s%s_asg_%s' % (op, tg, K)
                 add(nm, 'pub fn %s(a: %s, b: %s) -> %s { let mut v = a; v %s= b; v }' % (nm, V, V, V, sy), kind='binop', op=op, ty=ty, K=K, scalar=False)
-                nm = 'r_%s_asgs_%s' % (op, K)
+                nm = 'r_%s%s_asgs_%s' % (op, tg, K)
                 add(nm, 'pub fn %s(a: %s, s: %s) -> %s { let mut v = a; v %s= s; v }' % (nm, V, ty, V, sy), kind='binop', op=op, ty=ty, K=K, scalar=True)
                 if op in ('add', 'mul'):
                     nm = 'r_%s_sv_%s' % (op, K)
@@ -346,4 +347,4 @@ def run(ctx):
             ctx.ob(key + '/paths', False, 'branch-free', w, 'one path', str(e))
     ctx.floor('roots analysed', done, len(roots))
     ctx.floor('vector kinds', len(kinds), 13)
-    ctx.floor('API uses generated (counted at implementation time)', len(roots), 2969)
+    ctx.floor('API uses generated (counted at implementation time)', len(roots), 3203)
